@@ -517,6 +517,17 @@ func runC05(c *rt.Ctx) {
 	}
 	refillRun(c, c.Pick(40000, 400000), "uu")
 	guardedInputs(c, "C05", "uu", []string{"f81d4fae-7dec-11d0-a765-00a0c91e6bf6", "urn:uuid:f81d4fae-7dec-11d0-a765-00a0c91e6bf6", "F81D4FAE-7DEC-11D0-A765-00A0C91E6BF6", "URN:uuid:00000000-0000-0000-0000-000000000000", "f81d4fae-7dec-11d0-a765-00a0c91e6bf", "f81d4fae-7dec-11d0-a765-00a0c91e6bf6f", "f81d4fae07dec-11d0-a765-00a0c91e6bf6", "urn:uuid:", "u", "f81d4fae"})
+	{
+		var steps []func(w *rt.W)
+		t1, t2 := "f81d4fae-7dec-11d0-a765-00a0c91e6bf6", "00000000-0000-4000-8000-00000000000a"
+		for _, t := range []string{t1, "urn:uuid:" + t1, strings.ToUpper(t1), t2, "urn:uuid:" + strings.ToUpper(t2), t1[:35] + "g"} {
+			for _, r := range rules[:4] {
+				t, r := t, r
+				steps = append(steps, func(w *rt.W) { c05Parse(w, t, r, false); c05Parse(w, t, r, true) })
+			}
+		}
+		tripleHistories(c, steps)
+	}
 	coldStart(c, "C05", 12)
 	c.Exhaustive("all 6 pairs of separator positions x all 65,536 byte pairs on one valid text")
 	c.Require("separator-pair-substitution", 390000)
